@@ -480,7 +480,7 @@ def c_component_mul_generator(it, recv, a):
                           VOpaque("not", [VOpaque("is_prime_order", [gen])])])
     it.ctx.exits.append(("err_if", cond, "Error::JubJubGeneratorNotPrimeOrder"))
     sc = VOpaque("into_option", [VOpaque("JubJubScalar::from_bytes", [VOpaque("to_bytes", [val(k)])])])
-    it.ctx.exits.append(("return_if_none", sc, VErr("Error::JubJubScalarMalformed")))
+    it.ctx.exits.append(("try", f"{canon(sc)} is None => Err(Error::JubJubScalarMalformed)"))
     s = VOpaque("some_of", [sc])
     digits = VOpaque("wnaf", [s, 2])
     return VOpaque("map_ok", [VOpaque("append_fixed_base_signed_digits", [k, gen, digits]), "TorsionFreeWitnessPoint::new_unchecked"])
